@@ -147,6 +147,7 @@ func cmdCheck(args []string) int {
 	verbose := fs.Bool("v", false, "verbose")
 	noReplay := fs.Bool("noreplay", false, "skip native replay (debug)")
 	noEvidence := fs.Bool("noevidence", false, "do not write evidence (debug)")
+	fs.BoolVar(&forkProfile, "forks", false, "profile fork sites (debug)")
 	fs.Parse(args)
 	if t := os.Getenv("VERIF_TIER"); t != "" && !flagSet(fs, "tier") {
 		*tier = t
@@ -360,6 +361,9 @@ func cmdCheck(args []string) int {
 		if !groupConfirmed {
 			unconfirmed++
 			fmt.Printf("DEGRADED property=%s %d symbolic counterexample(s) for %q in %s; %d replayed natively, none reproduced (environment choice not forceable natively, or model imprecision)\n", *prop, len(vs), vs[0].Label, vs[0].Harness, tried)
+			if *verbose {
+				fmt.Printf("    first: %s\n    values: %v\n", vs[0].PathMsg, vs[0].Values)
+			}
 		}
 	}
 	// vacuity / model cross-validation witnesses
@@ -417,6 +421,23 @@ func cmdCheck(args []string) int {
 	}
 	if totInc > 0 {
 		fmt.Printf("DEGRADED property=%s inconclusive_obligations=%d\n", *prop, totInc)
+	}
+	if forkProfile {
+		type kv struct {
+			k string
+			v int
+		}
+		var l []kv
+		for k, v := range forkStats {
+			l = append(l, kv{k, v})
+		}
+		sort.Slice(l, func(i, j int) bool { return l[i].v > l[j].v })
+		for i, x := range l {
+			if i > 25 {
+				break
+			}
+			fmt.Printf("FORK %6d %s\n", x.v, x.k)
+		}
 	}
 	wall := time.Since(t0).Seconds()
 	fmt.Printf("SUMMARY property=%s tier=%s harnesses=%d paths=%d ssa_instrs=%d obligations=%d discharged=%d violations_confirmed=%d unconfirmed=%d unsupported_paths=%d queries=%d solver_s=%.1f wall_s=%.1f\n",
